@@ -120,6 +120,12 @@ def element_of_value(ev, v, j: Rat):
             g = items[0]
             if g.ranged and g.lo is not None and g.lo.is_zero() and g.step is not None and g.step.is_const() == 1 and len(g.parts) == 1:
                 guard, val, splice = g.parts[0]
+                if guard.kind != "true":
+                    # a condition that holds whenever the block has an element at all (`if len(knees) == 0: return ..` in front of the
+                    # loop) does not make the element conditional
+                    from .guards import g_implies, canon_sign, OPS
+                    if g_implies(canon_sign(g.hi.sub(g.lo), OPS[">"]), guard):
+                        guard = TRUE
                 if guard.kind == "true" and not splice and isinstance(val, Rat):
                     return simplify(val.subst({g.var: j})), g.hi
         raise NoElement("the list is not one unconditional generator block from position 0")
